@@ -111,6 +111,20 @@ OTHERS = {'int': 5, 'none': None, 'bytes': b'/tmp/x', 'pathlib.Path': None, 'flo
 EOLS = {'lf': '\n', 'crlf': '\r\n', 'cr': '\r'}
 
 
+def big_text(rname, mk):
+    filler = ('é€x' * 7 + 'y') * 3                      # 2- and 3-byte characters, period coprime to powers of two
+    if 'ontology' in rname:
+        d = json.loads(mk(True))
+        g = d['graphs'][0]
+        g['nodes'] += [{'id': PURL + 'HP_%07d' % i, 'lbl': 'filler %d %s' % (i, filler), 'type': 'CLASS'} for i in range(1000, 3200)]
+        g['edges'] += [{'sub': PURL + 'HP_%07d' % i, 'pred': 'is_a', 'obj': PURL + 'HP_0000001'} for i in range(1000, 3200)]
+        return json.dumps(d, ensure_ascii=False)
+    text = mk(True)
+    if 'Hpoa' in rname:
+        return text + ''.join(f'OMIM:3{i:05d}\tD {filler} {i}\t\tHP:0000002\tPMID:{i}\tPCS\t\t1/2\t\t\tP\tHPO:x[2020-01-01]\n' for i in range(2500))
+    return text + ''.join(f'HP:{i},K{filler}{i},{(i % 7) + 0.5}\n' for i in range(4000))
+
+
 def reader_product(work, unis=(False, True), eols=('lf', 'crlf', 'cr'), others=True):
     p0 = os.path.join(work, 'hpo0.json')
     with open(p0, 'w', encoding='utf-8') as fh:
@@ -118,11 +132,16 @@ def reader_product(work, unis=(False, True), eols=('lf', 'crlf', 'cr'), others=T
     hpo = hpotk.load_minimal_ontology(p0)
     out = []
     for rname, (mk, fn) in readers(hpo).items():
-        variants = [(u, e) for u in unis for e in eols] + ([('bom', 'lf')] if len(eols) > 1 else [])
+        variants = [(u, e) for u in unis for e in eols] + ([('bom', 'lf'), ('big', 'lf')] if len(eols) > 1 else [])
         for uni, eol in variants:
             # 'bom': the content starts with a UTF-8 byte order mark - whatever a reader makes of it (the JSON loaders
             # reject it), it must make the same of it for every kind of source
-            text = ('\ufeff' + mk(False) if uni == 'bom' else mk(uni)).replace('\n', EOLS[eol])
+            if uni == 'big':
+                # well beyond any chunk / buffer size (8 KiB, 64 KiB, 128 KiB), with multi-byte characters at every byte offset
+                # modulo 2 and 3: whatever the reader's chunking, some character straddles a chunk boundary
+                text = big_text(rname, mk)
+            else:
+                text = ('\ufeff' + mk(False) if uni == 'bom' else mk(uni)).replace('\n', EOLS[eol])
             srcs = sources(work, 'r', text)
             ref = None
             for kind, factory in srcs:
